@@ -82,7 +82,7 @@ def auto_names(case):
         elif spec[0] == "tbl":
             name = spec[3] or spec[1]
             ident = (spec[1], json.dumps(spec[2]), None)
-            if st_[0] == "join" and not spec[3] and ident in present:
+            if st_[0] in ("join", "from_") and not spec[3] and ident in present:
                 k = 2
                 while "%s%d" % (name, k) in used:
                     k += 1
@@ -357,7 +357,7 @@ def program(draw):
 
 
 # ---- enumerated family: combinations of sources whose names interact (always tested, whatever the random draws do) -----------------
-COMBOS = [("QU", "QD"), ("QD", "QN"), ("D", "QD"), ("P", "P3"), ("P", "P3", "P4"), ("P", "X2", "P3"), ("P", "QX2", "P3"), ("D", "P", "P3"), ("S", "TS"), ("QU", "QN2"), ("QN", "QU"), ("UN", "QN"), ("D", "UN", "QN2"),
+COMBOS = [("P", "from:P3"), ("P", "from:P3", "P4"), ("D", "from:P", "from:P3"), ("QU", "QD"), ("QD", "QN"), ("D", "QD"), ("P", "P3"), ("P", "P3", "P4"), ("P", "X2", "P3"), ("P", "QX2", "P3"), ("D", "P", "P3"), ("S", "TS"), ("QU", "QN2"), ("QN", "QU"), ("UN", "QN"), ("D", "UN", "QN2"),
           ("P2", "P", "P3"), ("A", "SA", "Q"), ("C", "D")]
 
 
@@ -370,7 +370,12 @@ def combo_case(cls, combo):
     steps.append(["from_", [["src", first]]])
     seen = [first]
     for k in combo[1:]:
-        steps.append(["join", [["src", k], ["enum", "JoinType", "inner"]], {}, ["on", [["eq", b.f(seen[-1], "on"), b.f(k, "on")]]]])
+        if k.startswith("from:"):
+            # a further FROM item instead of a join (several FROM items are sources like any other)
+            k = k[5:]
+            steps.append(["from_", [["src", k]]])
+        else:
+            steps.append(["join", [["src", k], ["enum", "JoinType", "inner"]], {}, ["on", [["eq", b.f(seen[-1], "on"), b.f(k, "on")]]]])
         seen.append(k)
     steps.append(["select", [b.f(k, "select") for k in seen]])
     steps.append(["where", [["and", ["gt", b.f(seen[0], "where"), ["raw", 1]], ["isnull", b.f(seen[-1], "where")]]]])
@@ -493,6 +498,8 @@ def check_program(case):
             if not ok:
                 shape = "aliased" if key and is_aliased(key) else (POOL[key][0] if key else "none")
                 shape = {"QD": "derived_from_preused", "QU": "preused_query", "UN": "auto_setop", "QN": "auto_query", "QN2": "auto_query", "P3": "self_join", "P4": "self_join", "TS": "self_join"}.get(key, shape)
+                if any(str(k_).startswith("from:") for k_ in case.get("combo") or []) and shape == "self_join":
+                    shape = "repeated_from_item"
                 sig = mksig(cls if pos in ("update_orderby", "returning") or case["kind"].startswith("update_j") else "any", case["kind"], pos, shape, fail)
                 if any(o[2] == "corr_outer_sel" for o in case["occ"]) and pos in ("corr_outer_sel", "corr_select"):
                     # one root cause whatever the two sources are: the inner query does not see that its select list names an outer table
